@@ -31,7 +31,7 @@ ATTR_HOSTS = ([(t, "<%s %%s>x</%s>" % (t, t)) for t in HTML_TAGS + EXT_TAGS] + [
 TAGS_STYLED = ['<div style="display:inline">', '<span style="display:inline">', '<table style="display:inline">',
                '<ref name=a/>', '<ref name="a">', '<pages from=1 to=2 index=a/>', '<td colspan=2>', '<font color=red>',
                # numbers that select an amount of work or exceed a conversion limit
-               '<pages index=a from=1 to=9999999/>', '<pages index=a from=-99999999 to=5/>', '<td colspan=30000000>', '<td rowspan=99999999>',
+               '<pages from=a to=b/>', '<pages index=a from=1 to=9999999/>', '<pages index=a from=-99999999 to=5/>', '<td colspan=30000000>', '<td rowspan=99999999>',
                "<imagemap>\nImage:A.png\ncircle 1 2 " + "9" * 5000 + " [[a]]\n</imagemap>", "<imagemap>\nImage:A.png\nrect 1 2 3 4 [[a]]\n</imagemap>",
                '<gallery perrow=99999999>', '<ol start=99999999999999999999>', '<timeline>a</timeline>', '<hiero>a</hiero>']
 COMMENTS = ["<!--", "-->", "<!-- c -->"]
@@ -92,6 +92,8 @@ CTX = [
     ("deflist-desc", "; t\n: %s\n"),
     ("pre-in-indent-table", ":{|\n|-\n| a\n  pre %s text\n|}\n"),
     # inside the extension tags whose body gets a treatment of its own (entity decoding, no markup)
+    # a heading line that runs across table cells, twice, with something in between
+    ("heading-across-cells", "{|\n== a || b ==\n%s\n== c || d ==\n|}"),
     ("nowiki", "a<nowiki>%s</nowiki>b"),
     ("pre-tag", "<pre>%s</pre>"),
     ("source", "<source lang=c>%s</source>"),
